@@ -223,6 +223,11 @@ func (kt *Keytab) Unmarshal(b []byte) error {
 	}
 	// n tracks position in the byte array
 	n := 2
+	if len(b[n:]) < 4 {
+		// Nothing follows the version bytes: a keytab without entries, as a newly created
+		// keytab file and the output of Marshal for an empty Keytab are.
+		return nil
+	}
 	l, err := readInt32(b, &n, &endian)
 	if err != nil {
 		return err
